@@ -302,6 +302,14 @@ func (q qiDecoder) mapValue(v reflect.Value) error {
 func (q qiDecoder) value(v reflect.Value) error {
 	switch v.Kind() {
 	case reflect.Interface:
+		if v.IsNil() && v.CanSet() {
+			el, err := q.readValue(v.Type())
+			if err != nil {
+				return err
+			}
+			v.Set(el)
+			return nil
+		}
 		i := v.Interface()
 		b, ok := i.(BinaryDecoder)
 		if ok {
